@@ -453,6 +453,26 @@ def _per_line_for(it, fn) -> bool:
     return False
 
 
+def _mentions_eod(e: Engine, k: str) -> bool:
+    """does the fact key test the end-of-data pattern - directly, or through
+    a predicate of the reader whose body is `return <test of eod_pattern>`"""
+    if 'eod_pattern' in k:
+        return True
+    import re as _re
+    for nm in _re.findall(r'(?:self|cls|DataReader)(?:#\d+)?\.(\w+)\(', k):
+        m = e.p.lookup_method(READER, nm)
+        if m is None:
+            continue
+        body = [st for st in m.node.body
+                if not (isinstance(st, ast.Expr) and
+                        isinstance(st.value, ast.Constant))]
+        if len(body) == 1 and isinstance(body[0], ast.Return) and \
+                body[0].value is not None and \
+                'eod_pattern' in ast.unparse(body[0].value):
+            return True
+    return False
+
+
 def r56(e: Engine, rep: Report):
     ctx, g = _add_lines_graph(e)
     where = ctx.func.qname
@@ -520,7 +540,7 @@ def r56(e: Engine, rep: Report):
             st = ff.at(n) or frozenset()
             init = mname == '__init__' and isinstance(v, ast.Constant) and \
                 v.value is None
-            matched = any(p and 'eod_pattern' in k for p, k in st)
+            matched = any(p and _mentions_eod(e, k) for p, k in st)
             nxt = [s2 for l, s2 in n.succ]
             while len(nxt) == 1 and nxt[0].kind == 'call':
                 nxt = [s2 for l, s2 in nxt[0].succ
@@ -651,7 +671,7 @@ def r57(e: Engine, rep: Report):
                 continue
             # (the give-up mark in front of `raise MessageTooBig` is not a
             # decision about a line)
-            if eod_w and not any(p and 'eod_pattern' in k for p, k in st):
+            if eod_w and not any(p and _mentions_eod(e, k) for p, k in st):
                 continue
             nsites += 1
             rep.evaluations += 1
@@ -1014,7 +1034,7 @@ def r516(e: Engine, rep: Report, rule: str = 'R5.16'):
         return
 
     def allowed(k):
-        return 'EOD' in k or 'eod_pattern' in k or "b'.'" in k or \
+        return 'EOD' in k or _mentions_eod(e, k) or "b'.'" in k or \
             k.startswith('len(') or '_in_data' in k
     for n, what in sites:
         if what != 'dot removal':
